@@ -3,7 +3,7 @@
    Only statements closed by [exact]; the lemmas live in Proofs/CopyFault.v (on top of
    Proofs/CopySpec.v).  The transition system is Model/CopyFault.v: the visible-event
    acceptor of copy.go (Model/CopySpec.v) extended with fault events -- an error returned
-   by dst.Exists [ExX], src.Fetch [SFX], Read() of a fetched manifest stream [SRX], dst.Push/PushReference before or after the content
+   by dst.Exists [ExX], src.Fetch [SFX], Read() of a fetched manifest stream [SRX], the FindSuccessors callback [FSX], dst.Push/PushReference before or after the content
    was stored [PuX n ref stored], dst.Tag before or after the reference was set [TagX n set],
    registry.Mounter.Mount before / after the blob was mounted or uploaded [MtX n stored],
    a user callback [Ev (CbFail k n)], an operation of the
